@@ -1,5 +1,6 @@
 import MW.Staking.Facts
 import MW.Chain.World
+import MW.Staking.Interface
 /-!
 # C08 — Authorization matrix of the staking contract
 
@@ -182,5 +183,18 @@ theorem unauthorized_tx_without_effect (w : World) (sender : String) (funds : Li
 
 /-- non-vacuity: the admin can execute an admin-only message -/
 example : adminOnly (.feeWithdraw 0) = true := rfl
+
+/-- **the matrix is about every message there is**: the `ExecuteMsg` the source declares (table regenerated from
+/repo's `msg.rs` on every run) has exactly the variants, fields and types this model was written against, and the
+model's `ExecMsg` — over which `authorized`, `success_was_authorized` and `unauthorized_tx_without_effect` quantify —
+has exactly one constructor per variant.  A message added to the source (which no generated history would send) breaks
+this theorem -/
+theorem matrix_covers_source_interface :
+    MW.Generated.Interface.staking_execute = MW.Interface.model_staking_execute
+    ∧ MW.Interface.names MW.Generated.Interface.staking_execute = MW.Interface.execSamples.map MW.Interface.execTag
+    ∧ (∀ m : ExecMsg, MW.Interface.execTag m ∈ MW.Interface.names MW.Generated.Interface.staking_execute)
+    ∧ MW.Generated.Interface.staking_entry_points = ["execute", "instantiate", "migrate", "query", "reply", "sudo"] :=
+  ⟨MW.Interface.staking_execute_eq, MW.Interface.staking_execute_covered.1, MW.Interface.staking_execute_covered.2,
+   MW.Interface.staking_entry_points_eq⟩
 
 end MW.Props.C08
